@@ -182,6 +182,31 @@ def spec (prop unitsPath : String) (seed : UInt64) : IO UInt32 := do
               cex := cex + 1
               IO.println s!"CEX {name} comp {j} in {xs.map (·.toBits)} model {m.toBits} spec {s.toBits}"
         if !found then IO.println s!"NOCEX {name}"
+  -- C01: vector overload vs renamed scalar overload
+  if prop == "C01" then
+    for f in Spec.C01.relFamilies do
+      for m in f.masks do
+        for L in f.lens do
+          total := total + 1
+          if !(f.okAt look m L) then
+            bad := bad + 1
+            let u := look f.vUnit [m, L]
+            let s := (look f.sUnit []).out 0
+            let name := s!"v_{f.fn}_{m}_{L}"
+            IO.println s!"FAIL rel_{f.fn} {name} kind=vector-vs-scalar outs={u.outs.length} expected={L}"
+            let mut found := false
+            for xs in candidates u.nIn false seed 2000 do
+              if found then break
+              let env := mkEnv xs
+              for i in [0:L] do
+                if found then break
+                let mv := (u.out i).eval f64Ops env
+                let sv := (s.rename (Spec.C01.sigma m L i)).eval f64Ops env
+                if !(mv == sv) && !(mv.isNaN && sv.isNaN) then
+                  found := true
+                  cex := cex + 1
+                  IO.println s!"CEX {name} comp {i} in {xs.map (·.toBits)} model {mv.toBits} spec {sv.toBits}"
+            if !found then IO.println s!"NOCEX {name}"
   IO.println s!"SPEC prop={prop} units={total} failing={bad} cex={cex}"
   return (if bad == 0 then 0 else 1)
 
